@@ -24,7 +24,8 @@ def designed_world(src, tag="w", max_levels=3):
             out[..., d] = A0 + B0 * (coords[d] - m.geo_low[d]) / L[d]
             cx, cy = [a for a in range(3) if a != d]
             out[..., 3 + d] = (lv + 1) * 1.0e6 + idx[cx] * 1000.0 + idx[cy] + 0.5
-        out[..., 6] = rng.uniform(1.0, 2.0, shp) * (10.0 ** rng.integers(-2, 3))
+        # one magnitude everywhere: a zero-weight neighbour sample then costs at most rounding
+        out[..., 6] = rng.uniform(1.0, 2.0, shp)
         return out
     world.fill_with(m, fn)
     world.gen_cosmetics(src, m, tag)
@@ -58,7 +59,17 @@ def draw_position(src, m, cn, tag="pos"):
         off = src.choice(f"{tag}.off", [0.25, -0.25, 0.45, -0.45, 0.1, -0.1]) * src.choice(f"{tag}.offdx", [dxf, dx])
         return min(hi, max(lo, face + off)), kind
     if kind == "random":
-        return lo + (hi - lo) * src.draw(f"{tag}.frac", 1, 9999) / 10000.0, kind
+        pos = lo + (hi - lo) * src.draw(f"{tag}.frac", 1, 9999) / 10000.0
+        # the tool takes a plane for "on a cell centre" with np.isclose (1e-5 relative to the
+        # ABSOLUTE coordinate): positions in that grey zone are snapped onto the centre, so that
+        # every drawn plane is either exactly on a centre or clearly (>= 1% of a cell) off it
+        for l2 in range(m.nlev):
+            d2 = m.dx[l2][cn]
+            t = (pos - lo) / d2 - 0.5
+            if abs(t - round(t)) < 1e-2:
+                pos = lo + (round(t) + 0.5) * d2
+                break
+        return min(hi, max(lo, pos)), kind
     if kind == "domain-face":
         return (lo if src.draw(f"{tag}.which", 0, 1) == 0 else hi), kind
     if kind == "first-last-half":
